@@ -16,11 +16,20 @@ import (
 var c13Workloads = []string{"separate-docs.fresh-selectors", "separate-docs.cached-selectors", "shared-doc.queries", "internal-parallelism", "shared-doc.execreader", "reexec.results-reused"}
 
 func init() {
+	// a function that dereferences a NULL argument (as TO_LOWER and friends
+	// do): a run-time panic inside whatever evaluates it
+	genql.RegisterFunction("vpanicnull", func(q *genql.Query, cur genql.Map, o *genql.FunctionOptions, args []any) (any, error) {
+		if len(args) == 0 || args[0] == nil {
+			var p *int
+			return *p, nil
+		}
+		return true, nil
+	})
 	floor := []string{}
 	for _, w := range c13Workloads {
 		floor = append(floor, "workload."+w)
 	}
-	floor = append(floor, "shared.where", "shared.subquery", "shared.exists", "shared.in-subquery", "shared.order", "shared.group", "shared.distinct", "shared.marker-between", "shared.cte-wrapped", "par.join", "par.join-fail", "par.async", "par.spinasync", "par.await-async", "par.async-deep", "par.join-like", "par.join-stateful", "reexec.results-reused", "cached.open-range", "reader.fn-spelling")
+	floor = append(floor, "shared.where", "shared.subquery", "shared.exists", "shared.in-subquery", "shared.order", "shared.group", "shared.distinct", "shared.marker-between", "shared.cte-wrapped", "par.join", "par.join-fail", "par.async", "par.spinasync", "par.await-async", "par.async-deep", "par.join-like", "par.join-stateful", "par.join-panic", "workload.cold-start", "reexec.results-reused", "cached.open-range", "reader.fn-spelling")
 	fw.Register(&fw.Prop{
 		ID:    "C13",
 		Title: "Concurrent queries are free of data races, crashes and cross-talk",
@@ -39,6 +48,7 @@ func init() {
 		MinNontrivial: 10,
 		Phases: []fw.Phase{
 			{Name: "concurrent", Race: true, N: func(t fw.Tier) int { return pick(t, 400, 8000) }, Run: c13Run},
+			{Name: "coldstart", Race: true, Batch: 1, N: func(t fw.Tier) int { return pick(t, 48, 800) }, Run: c13Cold},
 		},
 		Witness: func(c *fw.Case, w *fw.Finding) { c.Discard("covered by the workload") },
 	})
@@ -112,10 +122,46 @@ var c13Shared = []struct{ feat, sql string }{
 	{"shared.cte-wrapped", "WITH c1 AS (SELECT rid, n1 FROM `root.t1`), c2 AS (SELECT rid FROM c1 WHERE n1 > 0) SELECT * FROM c2"},
 }
 
-func c13Run(c *fw.Case) {
+func c13Run(c *fw.Case) { c13RunW(c, c13Workloads[c.Idx%len(c13Workloads)]) }
+
+// c13Cold: every case is a process of its own (Batch: 1) whose very first use
+// of the library is a burst of concurrent queries, so that whatever the library
+// sets up on first use (registries, indexes, caches, pools) is set up under
+// concurrency; the run-alone results are computed afterwards.
+func c13Cold(c *fw.Case) { c13RunW(c, "cold-start") }
+
+var c13ColdQueries = []struct {
+	sql      string
+	multiset bool
+	wrapped  bool
+}{
+	{"SELECT rid, TO_UPPER(s1) AS u, CONCAT(s1, 'x', n1) AS c FROM t1", false, false},
+	{"SELECT rid, ASYNC.TO_UPPER(s1) AS u FROM t1", false, false},
+	{"SELECT rid, IF(n1 > 1, 'a', 'b') AS v, SPINASYNC.TO_LOWER(s1) FROM t1", false, false},
+	{"SELECT rid, ASYNC.VIMM(n1) AS v FROM t1", false, false},
+	{"SELECT rid, VIMM(n1) AS v, VF(s1, rid, 1) AS w FROM t1", false, false},
+	{"SELECT rid, ASYNC.VF(n1, rid, 1) AS a, AWAIT(ASYNC.VF(s1, rid, 2)) AS b FROM t1", false, false},
+	{"SELECT rid FROM t1 WHERE s1 LIKE '%a%' OR s1 NOT LIKE '_'", false, false},
+	{"SELECT s1, COUNT(*) AS c, SUM(n1) AS s FROM t1 GROUP BY s1", false, false},
+	{"SELECT COUNT(*) AS c, MAX(n1) AS m FROM t1 WHERE n1 >= 0", false, false},
+	{"SELECT * FROM t1 x JOIN u1 y ON x.n1 = y.un1", true, false},
+	{"SELECT * FROM t1 x PARALLEL JOIN u1 y ON x.n1 >= y.un1", true, false},
+	{"SELECT * FROM t1 x PARALLEL LEFT HASH_JOIN u1 y ON x.n1 = y.un1", true, false},
+	{"SELECT rid, (SELECT e FROM arr WHERE e > 1) AS s FROM t1 WHERE EXISTS (SELECT e FROM arr)", false, false},
+	{"WITH c1 AS (SELECT rid, n1 FROM t1) SELECT * FROM c1 WHERE n1 IN (SELECT un1 FROM `<-u1`)", false, false},
+	{"SELECT DISTINCT s1, b1 FROM t1 ORDER BY s1 DESC LIMIT 3", false, false},
+	{"SELECT rid FROM t1 UNION SELECT un1 AS rid FROM u1", false, false},
+	{"SELECT a FROM mm WHERE a > 2", false, false},
+	{"SELECT e FROM `mix=>t1.arr`", false, false},
+	{"SELECT rid, `distinct=>tags` AS t, `arr[(0:1)]` AS h FROM t1", false, false},
+	{"SELECT rid, n1 FROM `root.t1` WHERE n1 >= 0", false, true},
+	{"SELECT rid, CHANGETYPE(n1, 'string') AS s, FIRST(tags) AS f, ELEMENTAT(tags, 1) AS e FROM t1", false, false},
+	{"SELECT rid, GETVAR('k') AS g, CONSTANT('c1') AS k FROM t1", false, false},
+}
+
+func c13RunW(c *fw.Case, w string) {
 	setHookMode(1)
 	armFault(0, faultNone)
-	w := c13Workloads[c.Idx%len(c13Workloads)]
 	G := 2 + c.Intn(pick(c.Tier, 7, 15))
 	iters := 2 + c.Intn(pick(c.Tier, 4, 8))
 	feats := []string{"workload." + w}
@@ -123,6 +169,27 @@ func c13Run(c *fw.Case) {
 	postBaseline := false
 	var sharedDoc map[string]any
 	switch w {
+	case "cold-start":
+		postBaseline = true
+		G = 4 + c.Intn(13)
+		jobs = make([][]*c13Job, G)
+		for g := 0; g < G; g++ {
+			d := newRichDoc(c)
+			for i, n := 0, 1+c.Intn(2); i < n; i++ {
+				var j *c13Job
+				switch k := c.Intn(len(c13ColdQueries) + len(c12Forms)/4 + 3); {
+				case k < len(c13ColdQueries):
+					q := c13ColdQueries[k]
+					j = &c13Job{doc: d.fresh(), sql: q.sql, multiset: q.multiset}
+					j.opts.Wrapped = q.wrapped
+				case k < len(c13ColdQueries)+3:
+					j = &c13Job{doc: d.fresh(), sql: gen.Pick(c.R, []string{"t1[0].arr[(0:1)]", "distinct=>t1[0].tags", "t1[each].rid", "mix=>mm"}), reader: true}
+				default:
+					j = &c13Job{doc: d.fresh(), sql: "SELECT rid, " + c12Forms[c.Intn(len(c12Forms))].sql + " AS v FROM t1"}
+				}
+				jobs[g] = append(jobs[g], j)
+			}
+		}
 	case "separate-docs.fresh-selectors":
 		postBaseline = true
 		for g := 0; g < G; g++ {
@@ -221,7 +288,13 @@ func c13Run(c *fw.Case) {
 		for g := 0; g < G; g++ {
 			for i := 0; i < iters; i++ {
 				var sql, feat string
-				switch c.Intn(9) {
+				switch c.Intn(10) {
+				case 9:
+					// the ON expression panics for the key groups whose z1 is NULL, while the
+					// other key groups are still being evaluated: an error, never a dead-lock
+					jn := gen.Pick(c.R, []string{"PARALLEL JOIN", "PARALLEL LEFT JOIN", "PARALLEL STRAIGHT_JOIN", "PARALLEL RIGHT JOIN"})
+					on := gen.Pick(c.R, []string{"x.n1 >= y.un1 AND VPANICNULL(x.z1)", "x.rid >= 0 AND IF(VPANICNULL(x.z1), TRUE, FALSE)", "x.n1 = y.un1 OR VPANICNULL(x.z1)"})
+					sql, feat = "SELECT x.rid, y.un1 FROM t1 x "+jn+" u1 y ON "+on, "par.join-panic"
 				case 8:
 					// an ON expression that touches state of the query: a ONCE memo, pending
 					// work of a subquery, a CTE of the scope that has not been read yet
